@@ -26,7 +26,9 @@ CHECKS = {
         text="For an opaque user residual with 1..3 components, scalar/per-component weights, with/without a per-sample parameter "
              "batch, PINN and SPINN: the dynamic term equals Mean[rows](sum_c w_c R_c^2); the returned total equals the sum of the "
              "returned terms for every subset of configured terms; unconfigured terms are exactly 0. Linearity in the weight, "
-             "permutation invariance and the halves identity are corollaries of the inferred formula.",
+             "permutation invariance and the halves identity are corollaries of the inferred formula. Each obligation is evaluated again "
+             "for a batch of a single row (the row axis declared to have extent 1); weights of exactly 0 switch the terms off; weights "
+             "replaced after construction are the ones used.",
         ref="DESIGN.md section 3 (C03)"),
     "C04": dict(
         technique="tensor-formula inference on boundary_condition_apply and the four boundary functions, per facet, vs outward-normal specification",
